@@ -37,7 +37,10 @@ ASSUMPTIONS = [
     'with the PARSED instance file; the generator includes the strings yes/no/on/1e3/007/~/null as variable values',
     'the theorems are about flatten_raw (the structural part of instance()); the value part (interpolation of the stored '
     'variables / blueprints / environments, conversion of typed leaves) is modelled (finish) and tied by the '
-    'correspondence but only its conversion step is covered by a theorem',
+    'correspondence but only its conversion step and the closed-string case of interpolation are covered by theorems',
+    'the idempotence theorems (store.load.store = store) are per section of the structural part and assume the side layers '
+    'of a component are `clean` (no stage/override/$import/repeatInterval/isRepeat in blueprints and platform override); the '
+    'complement for repeatInterval is the open finding F7d',
     'DoWhile instances (loop iterations before the reload) are covered by the predicate on the implementation only',
     'output / status-report / virtual-environments / application-dependencies / interface sections are left empty by the '
     'generator and not modelled',
